@@ -1844,7 +1844,8 @@ class CPHDWriter1(BaseWriter):
         # NB: this could be refactored out, but leaving it makes the most logical
         #   sense given the pvp/support approach
         fully_written = self.data_segment[int_index].check_fully_written(warn=False)
-        if fully_written:
+        if fully_written and not self._in_memory:
+            # NB: for in-memory writing, the bytes are delivered to the file object by flush
             self.writing_details.signal_details[int_index].item_written = True
 
     def flush(self, force: bool = False) -> None:
